@@ -17,6 +17,10 @@
    Time is Z nanoseconds; transaction ids, versions and data are Z tokens (the
    harness uses the identity of the *PoliciesData object as data token).
 
+   Second part (end of file): the policy-mode glue of routing/messages_handler.go
+   (processRequest / processResponse look the accessor up under the transaction
+   id) with the harness's version marker, suite "routing".
+
    Case format (harness -> cases.v):  (d0, [(action, got, retained)])
      d0        token of the initial PoliciesData (version 1)
      got       for Get: token of the object returned, -1 for an object that was
@@ -196,4 +200,90 @@ Definition run_case (k : case) : option (list (Z * list Z)) :=
   let m := trace (init d0) (map (fun e => fst (fst e)) evs) in
   let observed :=
     map (fun e => (match fst (fst e) with Get _ _ => snd (fst e) | _ => 0 end, snd e)) evs in
+  if eq_tr m observed then None else Some m.
+
+(* ================================================================== *)
+(* routing/messages_handler.go, policy (legacy) mode                    *)
+
+(* processRequest and processResponse both call
+   GetTxnPoliciesData(TxnID(args.ID)) — the TRANSACTION id, never the sequence
+   id — and dispatch with the data handed out.  To see which data processed a
+   response the harness gives object d a global retry remedy whose only status
+   condition is [marker d], with practically unlimited attempts.  The retry
+   plugin (services/remedies/retry_plugin.go) then behaves as follows on a
+   response with status x processed with object d:
+     x <> marker d : the sequence's retry state is deleted, no action;
+     x =  marker d : the state is found, or the transaction opens its sequence
+                     (id = sequence id) -> retry action, state kept;
+                     otherwise (no state, not a new sequence) -> no action.
+   [alive] = sequences that currently have retry state (the plugin's clock is
+   frozen by the harness, so the state never expires by itself). *)
+Inductive ract :=
+| Acc (a : act)
+| Req (id seq now : Z)
+| Resp (id seq status now : Z).
+
+Record rst := { acc : st; alive : list Z }.
+
+Definition rinit (d0 : Z) : rst := {| acc := init d0; alive := [] |}.
+
+Definition marker (d : Z) : Z := 500 + d.
+
+Definition memz (x : Z) (l : list Z) : bool := existsb (Z.eqb x) l.
+Definition remz (x : Z) (l : list Z) : list Z := filter (fun y => negb (x =? y)) l.
+
+(* what DispatchOnResponse does with the data handed out: new retry state and
+   whether a retry action came back (1) or not (0) *)
+Definition dispatch_resp (al : list Z) (id seq status : Z) (d : option Z) : list Z * Z :=
+  match d with
+  | None => (al, 0)                    (* empty PoliciesData: no remedy at all *)
+  | Some d =>
+      if status =? marker d then
+        if (id =? seq) || memz seq al
+        then ((if memz seq al then al else seq :: al), 1)
+        else (al, 0)
+      else (remz seq al, 0)
+  end.
+
+(* returns the new state and the observable of the action: the object handed
+   out for a bare accessor look-up, the retry flag for a response, 0 otherwise *)
+Definition rstep (s : rst) (a : ract) : rst * Z :=
+  match a with
+  | Acc a =>
+      let '(s', o) := step (acc s) a in ({| acc := s'; alive := alive s |}, got_of o)
+  | Req id _ now =>
+      ({| acc := fst (get (acc s) id now); alive := alive s |}, 0)
+  | Resp id seq status now =>
+      let '(s', o) := get (acc s) id now in
+      let '(al, r) := dispatch_resp (alive s) id seq status (o_data o) in
+      ({| acc := s'; alive := al |}, r)
+  end.
+
+Definition rafter (s : rst) (h : list ract) : rst :=
+  fold_left (fun s a => fst (rstep s a)) h s.
+
+(* the accessor actions a routing history amounts to *)
+Definition proj (a : ract) : act :=
+  match a with
+  | Acc a => a
+  | Req id _ now => Get id now
+  | Resp id _ _ now => Get id now
+  end.
+
+(* ---- correspondence entry point, suite "routing" ---- *)
+
+Definition rcase := (Z * list (ract * Z * list Z))%type.
+
+Fixpoint rtrace (s : rst) (h : list ract) : list (Z * list Z) :=
+  match h with
+  | [] => []
+  | a :: r =>
+      let '(s', o) := rstep s a in
+      (o, map snd (vers (acc s'))) :: rtrace s' r
+  end.
+
+Definition run_rcase (k : rcase) : option (list (Z * list Z)) :=
+  let '(d0, evs) := k in
+  let m := rtrace (rinit d0) (map (fun e => fst (fst e)) evs) in
+  let observed := map (fun e => (snd (fst e), snd e)) evs in
   if eq_tr m observed then None else Some m.
